@@ -33,13 +33,17 @@ RULE = ('operand tuples (1-3 Scalars) with broadcast-compatible shapes from a ta
         'one more axis; element-wise trees of depth 0-3; the four switch settings; operands with 0-2 derivatives (own masks '
         'sometimes); histories: operand and antimask memory layout (C, Fortran, strided view, negative stride, read-only), '
         'caches warmed before use (antimask, wod, corners, slicer, an earlier shrink) on operands and on shrunken operands, '
-        'the two computations on the SAME operand objects in either order, unshrink called twice. Non-trivial = array '
+        'the two computations on the SAME operand objects in either order, unshrink called twice; a wide oracle-only '
+        'catalogue of 75 element-wise operations (arithmetic incl. // % **, int/frac/sign, math functions, n-ary '
+        'maximum/minimum, mask_where*, clip, comparisons, tvl_ comparisons, logical and three-valued operators) with every '
+        'mixture of Boolean / integer / float operands and each argument position in turn masked at every selected '
+        'element. Non-trivial = array '
         'antimask selecting some but not all positions, or operands that broadcast. Distinct = distinct request line.')
 ASSUMPTIONS = ['the antimask is not stretched: on the axes it covers, its lengths are those of the broadcast result '
                '(an antimask with a unit axis where an operand is longer is outside the property: the shrunk operands '
                'no longer agree on the length of the gathered axis); in Lean: hypothesis Fits',
                'derivatives are compared where the element itself is unmasked (a masked element has no observable '
-               'derivative)',
+               'derivative); an absent derivative key is read as a zero derivative',
                'operands are not modified between shrink and unshrink (the property does not quantify over such histories); '
                'for a held shrunken object the cached path needs the C18 invariant "the cached back-pointer is current" '
                '(BackCurrent / unshrink_held_unmodified; its failure is KF-C18-1, proved as unshrink_held_counterexample)',
@@ -63,6 +67,56 @@ XOPS1 = {'pos': lambda a: +a, 'addc': lambda a: a + 1.5, 'mulc': lambda a: a * 2
 XOPS2 = {'max': lambda a, b: Scalar.maximum(a, b), 'min': lambda a, b: Scalar.minimum(a, b),
          'atan2': lambda a, b: a.arctan2(b), 'mod': lambda a, b: a % b}
 CMP = ('lt', 'le', 'gt', 'ge', 'eq', 'ne')
+
+# The wide element-wise catalogue (oracle only): name -> (argument kinds, result kind, callable).
+# kinds: 'n' = Scalar holding ints or floats, 'b' = Boolean, 'a' = either.
+def _b(x):
+    return Boolean.as_boolean(x)
+WIDE = {
+    # arithmetic, all kind mixtures
+    'w.add': ('aa', 'n', lambda a, b: a + b), 'w.sub': ('aa', 'n', lambda a, b: a - b), 'w.mul': ('aa', 'n', lambda a, b: a * b),
+    'w.div': ('aa', 'n', lambda a, b: a / b), 'w.floordiv': ('nn', 'n', lambda a, b: a // b), 'w.mod': ('nn', 'n', lambda a, b: a % b),
+    'w.pow2': ('n', 'n', lambda a: a ** 2), 'w.pow3': ('n', 'n', lambda a: a ** 3), 'w.powhalf': ('n', 'n', lambda a: a ** 0.5),
+    'w.powm1': ('n', 'n', lambda a: a ** -1), 'w.pow0': ('n', 'n', lambda a: a ** 0), 'w.powS': ('nn', 'n', lambda a, b: a ** b),
+    'w.neg': ('a', 'n', lambda a: -a), 'w.pos': ('a', 'n', lambda a: +a), 'w.abs': ('a', 'n', lambda a: abs(a)),
+    'w.sign': ('n', 'n', lambda a: a.sign()), 'w.int': ('n', 'n', lambda a: a.int()), 'w.frac': ('n', 'n', lambda a: a.frac()),
+    'w.recip': ('n', 'n', lambda a: a.reciprocal()), 'w.sqrt': ('n', 'n', lambda a: a.sqrt()),
+    'w.sin': ('n', 'n', lambda a: a.sin()), 'w.cos': ('n', 'n', lambda a: a.cos()), 'w.tan': ('n', 'n', lambda a: a.tan()),
+    'w.arcsin': ('n', 'n', lambda a: a.arcsin()), 'w.arccos': ('n', 'n', lambda a: a.arccos()), 'w.arctan': ('n', 'n', lambda a: a.arctan()),
+    'w.arctan2': ('nn', 'n', lambda a, b: a.arctan2(b)), 'w.exp': ('n', 'n', lambda a: a.exp()), 'w.log': ('n', 'n', lambda a: a.log()),
+    'w.as_float': ('a', 'n', lambda a: a.as_float()), 'w.as_int': ('a', 'n', lambda a: a.as_int()), 'w.wod': ('n', 'n', lambda a: a.wod),
+    'w.numc': ('n', 'n', lambda a: 2 * a - 1), 'w.rdivc': ('n', 'n', lambda a: 3 / a), 'w.rmodc': ('n', 'n', lambda a: a % 2),
+    # n-ary extremes, mixed int / float
+    'w.max2': ('nn', 'n', lambda a, b: Scalar.maximum(a, b)), 'w.min2': ('nn', 'n', lambda a, b: Scalar.minimum(a, b)),
+    'w.max3': ('nnn', 'n', lambda a, b, c: Scalar.maximum(a, b, c)), 'w.min3': ('nnn', 'n', lambda a, b, c: Scalar.minimum(a, b, c)),
+    'w.maxc': ('n', 'n', lambda a: Scalar.maximum(a, 0.5)), 'w.minc': ('n', 'n', lambda a: Scalar.minimum(1, a)),
+    # masking operations
+    'w.mw': ('ab', 'n', lambda a, m: a.mask_where(m.as_mask_where_nonzero_or_masked())),
+    'w.mw_rep': ('nb', 'n', lambda a, m: a.mask_where(m.as_mask_where_nonzero(), replace=7, remask=False)),
+    'w.mw_eq': ('n', 'n', lambda a: a.mask_where_eq(0)), 'w.mw_ne': ('n', 'n', lambda a: a.mask_where_ne(1)),
+    'w.mw_lt': ('n', 'n', lambda a: a.mask_where_lt(0)), 'w.mw_le': ('n', 'n', lambda a: a.mask_where_le(0, replace=5)),
+    'w.mw_gt': ('n', 'n', lambda a: a.mask_where_gt(1)), 'w.mw_ge': ('n', 'n', lambda a: a.mask_where_ge(1, replace=-1, remask=False)),
+    'w.mw_ltS': ('nn', 'n', lambda a, b: a.mask_where_lt(b)), 'w.mw_between': ('n', 'n', lambda a: a.mask_where_between(-1, 1)),
+    'w.mw_outside': ('n', 'n', lambda a: a.mask_where_outside(-1, 1)), 'w.clip': ('n', 'n', lambda a: a.clip(-1, 1.5)),
+    'w.clip_nomask': ('n', 'n', lambda a: a.clip(-1, 1, remask=False)), 'w.clipS': ('nnn', 'n', lambda a, b, c: a.clip(b, c, remask=False)),
+    'w.remask_or': ('ab', 'n', lambda a, m: a.remask_or(m.as_mask_where_nonzero())),
+    # comparisons
+    'w.eq': ('aa', 'b', lambda a, b: _b(a == b)), 'w.ne': ('aa', 'b', lambda a, b: _b(a != b)),
+    'w.lt': ('nn', 'b', lambda a, b: _b(a < b)), 'w.le': ('nn', 'b', lambda a, b: _b(a <= b)),
+    'w.gt': ('nn', 'b', lambda a, b: _b(a > b)), 'w.ge': ('nn', 'b', lambda a, b: _b(a >= b)),
+    'w.ltc': ('n', 'b', lambda a: _b(a < 0.5)), 'w.eqc': ('n', 'b', lambda a: _b(a == 1)),
+    'w.tvl_eq': ('aa', 'b', lambda a, b: a.tvl_eq(b, builtins=False)), 'w.tvl_ne': ('aa', 'b', lambda a, b: a.tvl_ne(b, builtins=False)),
+    'w.tvl_lt': ('nn', 'b', lambda a, b: a.tvl_lt(b, builtins=False)), 'w.tvl_le': ('nn', 'b', lambda a, b: a.tvl_le(b, builtins=False)),
+    'w.tvl_gt': ('nn', 'b', lambda a, b: a.tvl_gt(b, builtins=False)), 'w.tvl_ge': ('nn', 'b', lambda a, b: a.tvl_ge(b, builtins=False)),
+    'w.is_masked': ('a', 'b', lambda a: Boolean(a.mask) if hasattr(a, 'mask') else a),
+    # logical and three-valued operators
+    'w.and': ('bb', 'b', lambda a, b: a & b), 'w.or': ('bb', 'b', lambda a, b: a | b), 'w.xor': ('bb', 'b', lambda a, b: a ^ b),
+    'w.not': ('b', 'b', lambda a: ~a), 'w.logical_not': ('a', 'b', lambda a: a.logical_not()),
+    'w.tvl_and': ('bb', 'b', lambda a, b: a.tvl_and(b, builtins=False)), 'w.tvl_or': ('bb', 'b', lambda a, b: a.tvl_or(b, builtins=False)),
+    'w.tvl_and_n': ('an', 'b', lambda a, b: _b(a).tvl_and(_b(b), builtins=False)),
+    'w.andc': ('b', 'b', lambda a: a & True), 'w.orc': ('b', 'b', lambda a: False | a),
+}
+del WIDE['w.is_masked']          # the mask of an object outside the antimask is not an element-wise observable
 
 
 # ------------------------------------------------------------------ building / observing
@@ -98,6 +152,8 @@ def build(o):
     vals = np.array(o['vals'], dtype='float64').reshape(shape) / 2.
     if dt == 'int':
         vals = np.array(o['vals'], dtype='int64').reshape(shape)
+    if dt == 'bool':
+        vals = (np.array(o['vals'], dtype='int64').reshape(shape) > 0)
     m = mk_mask(o['mask'], shape)
     if isinstance(m, np.ndarray) and not isinstance(o['mask'], dict):
         m = with_prov(m, prov)
@@ -105,7 +161,7 @@ def build(o):
         vals = vals[()].item()
     else:
         vals = with_prov(vals, prov)
-    q = Scalar(vals, m)
+    q = Boolean(vals, m) if dt == 'bool' else Scalar(vals, m)
     for k, dvals, dmask in o['derivs']:
         dv = np.array(dvals, dtype='float64').reshape(shape) / 2.
         dm = mk_mask(dmask, shape)
@@ -169,6 +225,8 @@ def obs(q, sel):
 def ev(t, env):
     if t[0] == 'var':
         return env[t[1]]
+    if t[0] in WIDE:
+        return WIDE[t[0]][2](*[ev(x, env) for x in t[1:]])
     if len(t) == 2:
         return (OPS1.get(t[0]) or XOPS1[t[0]])(ev(t[1], env))
     return (OPS2.get(t[0]) or XOPS2[t[0]])(ev(t[1], env), ev(t[2], env))
@@ -276,11 +334,18 @@ def oracle(case):
     if isinstance(direct, str):
         return None                    # the direct computation is itself rejected: nothing to compare
     if isinstance(via, str):
-        return (signature(case, 'raises'), 'direct evaluation succeeds, shrink/evaluate/unshrink raises %s (switches %s)'
+        return (signature(case, 'raises-' + via), 'direct evaluation succeeds, shrink/evaluate/unshrink raises %s (switches %s)'
                 % (via, CFG_NAMES[tuple(case['cfg'])]))
     if via[0] != direct[0]:
         return (signature(case, 'class'), 'result class %s via shrinking, %s directly' % (via[0], direct[0]))
     for i, (a, b) in enumerate(zip(via[2], direct[2])):
+        if a != b and a != 'M' and b != 'M' and a[0] == b[0]:
+            # an absent derivative is a zero derivative (polymath's own convention in _add_derivs etc.): operations such
+            # as clip()/mask_where(replace=) add a key to the WHOLE object as soon as one element anywhere is replaced
+            keys = sorted({k for k, _ in a[1:]} | {k for k, _ in b[1:]})
+            zero = bits(0.0)
+            a = [a[0]] + [[k, dict(map(tuple, a[1:])).get(k, zero)] for k in keys]
+            b = [b[0]] + [[k, dict(map(tuple, b[1:])).get(k, zero)] for k in keys]
         if a != b:
             kind = 'mask' if (a == 'M') != (b == 'M') else 'value' if a[0] != b[0] else 'derivative'
             return (signature(case, kind), 'selected element %d: %s via shrinking, %s directly (switches %s)'
@@ -485,6 +550,103 @@ def gen_cases(rng, tier):
                       dtype=rng.choice(['float', 'float', 'int']))
         if rng.random() < 0.3 and sc['am'] == 'F':
             sc['ushape'] = sc['grid']
+        for cfg in CFGS:
+            cases.append(mk(dict(sc, cfg=list(cfg))))
+    # 4. the wide element-wise catalogue (oracle only): logical / three-valued operators, comparisons, n-ary extremes,
+    #    integer and float functions, masking operations; operand kinds bool / int / float mixed
+    cases += wide_cases(rng, thorough)
+    return cases
+
+
+def wide_opd(rng, shape, kind, mask):
+    n = int(np.prod(shape, dtype=int))
+    dtype = kind
+    o = {'shape': list(shape), 'vals': [rng.choice([-3, -2, -1, 0, 0, 1, 1, 2, 3, 5]) for _ in range(n)], 'mask': mask, 'derivs': []}
+    if dtype == 'float' and rng.random() < 0.3:
+        o['derivs'] = [['t', [rng.randint(-4, 4) for _ in range(n)], 'F']]
+    if dtype != 'float':
+        o['dtype'] = dtype
+    return o
+
+
+def wide_tree(rng, want, depth, kinds):
+    """typed random tree over WIDE producing kind `want` ('n' or 'b'); leaves = variables of a suitable kind"""
+    leaves = [i for i, k in enumerate(kinds) if want == 'a' or (k == 'bool') == (want == 'b')]
+    if depth == 0 or (leaves and rng.random() < 0.2):
+        if not leaves:
+            return None
+        return ['var', rng.choice(leaves)]
+    ops = [k for k, v in WIDE.items() if v[1] == want or want == 'a']
+    for _ in range(10):
+        op = rng.choice(ops)
+        args = [wide_tree(rng, a, depth - 1, kinds) for a in WIDE[op][0]]
+        if all(a is not None for a in args):
+            return [op] + args
+    return None
+
+
+def wide_cases(rng, thorough):
+    """every operation of the wide catalogue with operands of mixed kinds, each argument position in turn masked at
+    every selected element (so that shrink() replaces it by the fully masked stand-in), then typed random trees"""
+    cases = []
+    grids = [(3,), (4,), (2, 3), (2, 2)]
+    def scene(op_or_tree, nargs, kinds, pos):
+        full = rng.choice(grids)
+        n = int(np.prod(full, dtype=int))
+        bits = [rng.random() < 0.5 for _ in range(n)]
+        bits[rng.randrange(n)] = True
+        if rng.random() < 0.8:
+            bits[rng.randrange(n)] = False
+        am = {'shape': list(full), 'bits': bits}
+        opds, grid = [], list(full)
+        for i in range(nargs):
+            shape = full
+            r = rng.random()
+            if r < 0.12: shape = ()
+            elif r < 0.24: shape = (2,) + full
+            elif r < 0.32: shape = full[1:] if len(full) > 1 and all(bits[j] == bits[j % (n // full[0])] for j in range(n)) else full
+            nn = int(np.prod(shape, dtype=int))
+            if i == pos:                       # masked exactly on the antimask (and a little more)
+                if shape == ():
+                    mask = 'T'
+                else:
+                    mb = np.broadcast_to(np.array(bits).reshape(full), np_bcast(full, shape) if len(shape) >= len(full) else full)
+                    if len(shape) < len(full):
+                        shape = full; nn = n
+                    mask = [bool(b) or rng.random() < 0.15 for b in mb.ravel()]
+                    if all(mask) and rng.random() < 0.5:
+                        mask = 'T'
+            else:
+                mask = rand_mask(rng, shape, rng.choice(['none', 'none', 'rand']))
+            opds.append(wide_opd(rng, shape, kinds[i], mask))
+            grid = list(np_bcast(grid, list(shape)))
+        return {'am': am, 'grid': grid, 'opds': opds}
+
+    def kinds_for(sig):
+        return [rng.choice(['int', 'float']) if a == 'n' else 'bool' if a == 'b' else rng.choice(['int', 'float', 'bool']) for a in sig]
+
+    import itertools
+    opts = {'n': ['int', 'float'], 'b': ['bool'], 'a': ['int', 'float', 'bool']}
+    for op in sorted(WIDE):
+        sig = WIDE[op][0]
+        combos = list(itertools.product(*[opts[a] for a in sig]))      # every mixture of operand kinds
+        for pos in [None] + list(range(len(sig))):
+            for kinds in combos * (2 if thorough else 1):
+                kinds = list(kinds)
+                sc = scene(op, len(sig), kinds, pos)
+                sc['tree'] = [op] + [['var', i] for i in range(len(sig))]
+                for cfg in CFGS:
+                    cases.append(mk(dict(sc, cfg=list(cfg))))
+    for _ in range(1500 if thorough else 120):
+        nv = rng.choice([2, 3])
+        kinds = [rng.choice(['int', 'float', 'bool']) for _ in range(nv)]
+        tree = wide_tree(rng, rng.choice(['n', 'b']), 2, kinds)
+        if tree is None or tree[0] == 'var':
+            continue
+        sc = scene(None, nv, kinds, rng.choice([None, 0, nv - 1]))
+        sc['tree'] = tree
+        if rng.random() < 0.3:
+            sc = history(rng, sc)
         for cfg in CFGS:
             cases.append(mk(dict(sc, cfg=list(cfg))))
     return cases
